@@ -65,7 +65,7 @@ typedef struct {
     volatile long executions, pruned_points, nontrivial, stack_overflow, truncated, stop;
     volatile long maxpoints, maxdev, maxpre;
     volatile long stat[VX_NSTAT];
-    char  statname[VX_NSTAT][40];
+    char  statname[VX_NSTAT][64];
     char  statkind[VX_NSTAT];       /* 's' sum, 'm' max */
     volatile int nviol;
     vx_viol_t viol[VX_MAXVIOL];
@@ -158,10 +158,10 @@ static int vx_stat_slot(const char* name, char kind) {
     for (int i = 0; i < VX_NSTAT; i++) {
         if (vx_sh->statname[i][0] == 0) {
             pthread_mutex_lock(&vx_sh->lock);
-            if (vx_sh->statname[i][0] == 0) { strncpy(vx_sh->statname[i], name, 39); vx_sh->statkind[i] = kind; }
+            if (vx_sh->statname[i][0] == 0) { strncpy(vx_sh->statname[i], name, 63); vx_sh->statkind[i] = kind; }
             pthread_mutex_unlock(&vx_sh->lock);
         }
-        if (strcmp(vx_sh->statname[i], name) == 0) return i;
+        if (strncmp(vx_sh->statname[i], name, 63) == 0) return i;
     }
     return VX_NSTAT - 1;
 }
